@@ -19,6 +19,8 @@ func init() {
 			return c10.ReqDecode(a.In, w, o)
 		case "rerecord":
 			return c10.ReRecord(a.In, w, o)
+		case "vecsizes":
+			return c10.VecSizes(o.Schema, w)
 		case "names":
 			ns, err := c10.Names(o.Schema)
 			for _, n := range ns {
